@@ -127,7 +127,7 @@ def sweep_cases(rng, seed, n):
     from .prog import Case, S
     out = []
     for j in range(n):
-        kind = ("map", "reduce")[j % 2]
+        kind = ("map", "reduce", "oreduce")[j % 3]
         nk = rng.choice([3, 4, 5, 6])
         c = Case(f"c14_{seed}_sweep{j}", 0, 12)
         keys = rng.sample(range(9), nk)
@@ -136,6 +136,33 @@ def sweep_cases(rng, seed, n):
             # (a reduction that grows over several cycles retires combiners mid-run: that is F15's call site, not the sweep)
             hist.setdefault(1 if kind == "reduce" else 1 + (q % rng.choice([1, 2, 3])), []).append(f"[{k}]={k * 1000 + q}")
         c.cscripts[1] = [f"{t}|" + ",".join(ops) for t, ops in sorted(hist.items())] + [f"8|[{keys[0]}]=5"]
+        if kind == "oreduce":
+            # ordered reduction (a chain of combiner graphs, rebuilt in a second bank whenever the key count changes): sizes
+            # that reach a new maximum and shrink right away, with nothing evaluating the node afterwards
+            static = (j // 3) % 2 == 1
+            if static:
+                # one chain built once and alive until shutdown: a stop fault fires in the reduction's OWN stop (F23 call site)
+                nk = rng.choice([2, 3, 4])
+                c.cscripts[1] = ["1|" + ",".join(f"[{q}]={rng.randint(1, 60)}" for q in range(nk)), f"4|[{rng.randrange(nk)}]=9"]
+            else:
+                a = rng.choice([1, 2, 3])
+                b = a + rng.choice([1, 2])
+                c.cscripts[1] = ["1|" + ",".join(f"[{q}]={rng.randint(1, 60)}" for q in range(a)), f"3|[0]={rng.randint(1, 60)}",
+                                 "5|" + ",".join(f"[{q}]={rng.randint(1, 60)}" for q in range(a, b)),
+                                 "6|" + ",".join(f"x[{q}]" for q in range(b - 1, b - 1 - rng.choice([1, min(2, b - 1)]), -1))]
+            c.graphs["fn1"] = [S("x", "ord2", "p0", "p1"), S("y", "pass", "x", uid=10), S("", "RET", "y")]
+            c.graphs["main"] = [S("d", "csrc", shape="tsd", uid=1), S("r", "reduce", "d", fn="fn2:1", zero=5, assoc=0), S("", "rec", "r", uid=20)]
+            c.meta["reduce_uids"] = [10]
+            c.meta["dynamic"] = True
+            for k, (plan, cleanup) in enumerate([([], 1), ([], 0), ([(10, "stop", 1)], 1), ([(10, "stop", 1)], 0), ([(10, "stop", 2)], 1),
+                                                 ([(10, "eval", 2)], 1)]):
+                cc = copy.deepcopy(c)
+                cc.name = f"{c.name}_f{k}"
+                cc.faults = list(plan)
+                cc.opts["cleanup"] = cleanup
+                cc.meta["plan"] = [list(x) for x in plan]
+                out.append(cc)
+            continue
         if kind == "map":
             c.graphs["fn0"] = [S("e", "pass", "p0", uid=10), S("a", "acc", "e", uid=11), S("", "RET", "a")]
             c.graphs["main"] = [S("d", "csrc", shape="tsd", uid=1), S("m", "map", "d", fn="fn1:0"), S("", "cmirror", "m", uid=20)]
@@ -162,7 +189,7 @@ def sweep_cases(rng, seed, n):
 
 def generate(rng, tier, seed):
     nprog = scaled(30 if tier == "quick" else 300)
-    cases = sweep_cases(random.Random(f"c14sweep/{seed}/{tier}"), seed, 4 if tier == "quick" else 40)
+    cases = sweep_cases(random.Random(f"c14sweep/{seed}/{tier}"), seed, 12 if tier == "quick" else 60)
     for p in range(nprog):
         base = gen_case(rng, f"c14_{seed}_{p}", n_nodes=rng.choice([2, 3, 5, 8]), max_depth=2,
                         nested_only="nested" if rng.random() < 0.6 else None)
@@ -199,6 +226,7 @@ def check(case, tr):
     graph_nodes = {}   # gid -> list of (idx) in start order
     stops_order = {}   # gid -> list of idx in user stop order
     fired = []
+    fired_seq = []
     parents = {}
     pending_before = {}   # (kind, gid, idx) -> seq  for before/after pairing
     returned = run.returned_seq if run.returned_seq > 0 else None
@@ -221,6 +249,7 @@ def check(case, tr):
             last_user = ("start", key)
         elif kind == "u.throw":
             fired.append((int(tk[0]), tk[1], int(tk[2])))
+            fired_seq.append(seq)
             if last_user and last_user[0] == "start" and tk[1] == "start":
                 inst[last_user[1]]["state"] = "start-failed"
             if last_user and last_user[0] == "stop" and tk[1] == "stop":
@@ -284,7 +313,11 @@ def check(case, tr):
     if fired:
         first = fired[0]
         if run.error is None:
-            if first[1] == "stop" and first[0] in case.meta.get("reduce_uids", []):
+            # F15 is the RETIRED-combiner call site: the stop was made mid-run (a root cycle was still open / followed), not by
+            # the reduction's own stop during shutdown
+            root_cycle_ends = [q for q, kd, tk in run.events if kd == "C>" and int(tk[0]) == 0]
+            mid_run = bool(root_cycle_ends) and fired_seq[0] < root_cycle_ends[-1]
+            if first[1] == "stop" and first[0] in case.meta.get("reduce_uids", []) and mid_run:
                 V.append(Violation(f"stop() of a node inside a retired reduce combiner threw {first}; the exception was swallowed and run() "
                                    f"returned normally", "reduce-retired-combiner-stop-failure-swallowed"))
             else:
